@@ -1,6 +1,7 @@
 (* L-scale model side.  Case line: `<ops> <scalable dump>` with the dump grammar of
    harness/src/bin/scale.rs (frames are opaque tokens, kept as OCaml strings); ops is a comma
    separated list of f<num> (scale; num = m:e or num/den) | s<n> (scale_to_servings) | d.
+   `ST <i>` prints entry i of the hand-written standards table.
    Output: the scaled dumps of the operations joined by " ;; "; `nonfinite` for a zero servings
    base, `panic <site>` if the model reaches a panic site.  Numbers are printed as reduced num/den. *)
 let q_of_tok (t : string) : q =
@@ -128,9 +129,18 @@ let show = function
   | Done r -> scaled_dump r
   | Panic site -> if int_of_n site = 20 then "nonfinite" else "panic " ^ string_of_n site
 
+let pq_name = function Volume -> "volume" | Mass -> "mass" | Length -> "length"
+                     | Temperature -> "temperature" | Time -> "time"
+
 let () =
   drive (fun f ->
     match f with
+    | ["ST"; i] ->
+        (* entry i of the hand-written standards table (coq/Model/Standards.v), for the monitor *)
+        (match List.nth_opt standards_x (int_of_string i) with
+         | None -> "none"
+         | Some (((name, p), r), d) ->
+             Printf.sprintf "std %s %s %s %s" (hex_of_str name) (pq_name p) (tok_of_q r) (tok_of_q d))
     | ops :: rest ->
         toks := Array.of_list rest; pos := 0;
         let r = parse_recipe () in
